@@ -122,6 +122,36 @@ def after_construct(pool):
             yield ("if", [(c1, [st, pool[k]])], None)
 
 
+def rhs_of(st):
+    """right-hand sides and conditions read by a statement (targets excluded)"""
+    if st[0] == "assign":
+        return [st[2]]
+    if st[0] == "if":
+        return [c for c, _b in st[1]] + [rhs_of(x) for _c, b in st[1] for x in b] + [rhs_of(x) for x in (st[2] or [])]
+    return [st[1]] + [rhs_of(x) for _p, b in st[2] for x in b]
+
+
+def reads_driven(mo):
+    r = repr([rhs_of(st) for st in mo])
+    return "('s', 10," in r or "('s', 11," in r
+
+
+def split_terms():
+    """one signal whose halves are driven from two fragments of the same domain (two simulator processes update it in one delta cycle)"""
+    lo = lambda rhs: ("assign", ("slice", t, 0, 2, None), rhs)
+    hi = lambda rhs: ("assign", ("slice", t, 2, 4, None), rhs)
+    ulo = lambda rhs: ("assign", ("slice", u, 0, 1, None), rhs)
+    uhi = lambda rhs: ("assign", ("slice", u, 1, 3, None), rhs)
+    mods = []
+    for ca, cb in ((c1, c2), (c3, c1), (c2, c3)):
+        for ra, rb in ((d, e), (e, d), (("b", "+", t, d), ("u", "inv", t)), (c3, ("c", 3, 2, False))):
+            for A, B in ((lo, hi), (hi, lo), (ulo, uhi)):
+                mods.append([("if", [(ca, [A(ra)])], [A(rb)]), ("switch", cb, [((1,), [B(rb)]), (None, [B(ra)])])])
+                mods.append([("if", [(ca, [A(ra)])], None), ("if", [(cb, [B(rb)])], None)])
+                mods.append([A(ra), ("switch", cb, [((0,), [B(ra)]), ((1,), [])])])
+    return mods
+
+
 def module_terms(tier_quick):
     mods = []
     pool = ASSIGN if not tier_quick else ASSIGN
@@ -230,7 +260,8 @@ def inputs_of(stmts):
 
 
 def run_batch(task):
-    mods, domain = task
+    mods, domain, *rest = task
+    split = bool(rest and rest[0])     # each module term is two statements on disjoint bits: the first lives in submodule A, the second in B
     from amaranth.hdl import Module, Signal, Shape, ClockDomain, Cat
     warnings.simplefilter("ignore")
     out = {"cov": {"evaluations": 0, "modules": 0, "distinct_nontrivial": 0}, "samples": [], "violations": []}
@@ -239,15 +270,23 @@ def run_batch(task):
     m.domains.sync = cd
     ins = {i: Signal(Shape(*sh), name=f"in{i}") for i, sh in INPUTS.items()}
     copies = []
+    if split:
+        sub_a, sub_b = Module(), Module()
+        m.submodules.a = sub_a
+        m.submodules.b = sub_b
     for n, stmts in enumerate(mods):
         sigs = dict(ins)
         for i, (w, sg, init) in DRIVEN.items():
             sigs[i] = Signal(Shape(w, sg), init=init, name=f"m{n}_{i}")
         try:
-            emit(m, "mixed" if domain == "mixed" else m.d[domain], stmts, sigs)
+            if split:
+                emit(sub_a, sub_a.d[domain], stmts[:1], sigs)
+                emit(sub_b, sub_b.d[domain], stmts[1:], sigs)
+            else:
+                emit(m, "mixed" if domain == "mixed" else m.d[domain], stmts, sigs)
         except Exception as ex:
             out["violations"].append({"sig": f"build:{domain}:{show_stmts(stmts)}",
-                                      "what": f"module rejected: {type(ex).__name__}: {ex}", "payload": {"stmts": stmts, "domain": domain}})
+                                      "what": f"module rejected: {type(ex).__name__}: {ex}", "payload": {"stmts": stmts, "domain": domain, "split": split}})
             continue
         copies.append((stmts, sigs))
     keep = Signal(10)
@@ -335,7 +374,7 @@ def run_batch(task):
                         out["violations"].append({
                             "sig": f"{domain}:{show_stmts(stmts)}",
                             "what": f"{domain} module [{show_stmts(stmts)}] inputs {cur} state {st}: (t,u) = {got}, reference {want}",
-                            "payload": {"stmts": stmts, "domain": domain}})
+                            "payload": {"stmts": stmts, "domain": domain, "split": split}})
         out["cov"]["distinct_nontrivial"] += sum(1 for s in varies if len(s) > 1)
     try:
         run_in_testbench(frag, body)
@@ -347,8 +386,8 @@ def run_batch(task):
                                       "payload": {"stmts": mods[0], "domain": domain}})
             return out
         half = len(mods) // 2
-        a = run_batch((mods[:half], domain))
-        b = run_batch((mods[half:], domain))
+        a = run_batch((mods[:half], domain, split))
+        b = run_batch((mods[half:], domain, split))
         for k, v in b["cov"].items():
             a["cov"][k] = a["cov"].get(k, 0) + v
         a["violations"] += b["violations"]
@@ -563,6 +602,16 @@ def run(rep):
     for key, ms in mgroups.items():
         bits = sum(INPUTS[i][0] for i in key)
         tasks += [("b", (ch, "mixed")) for ch in chunks(ms, max(5, 100 >> max(0, bits - 6)))]
+    sp = split_terms()
+    rep.setcov("split_fragment_module_terms", len(sp))
+    sgroups = {}
+    for mo in sp:
+        sgroups.setdefault(tuple(sorted(inputs_of(mo))), []).append(mo)
+    for key, ms in sgroups.items():
+        for dom in ("sync", "comb"):
+            # a combinational right-hand side must not read the signals the module drives (that would be a loop)
+            sel = ms if dom == "sync" else [mo for mo in ms if not reads_driven(mo)]
+            tasks += [("b", (ch, dom, True)) for ch in chunks(sel, 12)]
     specs = fsm_specs()
     for ch in chunks(specs, 2):
         tasks.append(("fsm", (ch, rep.pick(4, 6))))
@@ -594,7 +643,7 @@ def replay(payload):
             st = _tup(st)
             return st
         stmts = [_unjson(s) for s in payload["stmts"]]
-        out = run_batch(([stmts], payload["domain"]))
+        out = run_batch(([stmts], payload["domain"], payload.get("split", False)))
         return [v["what"] for v in out["violations"]][:5]
     if "nested_fsm" in payload:
         out = run_nested_fsm(([tuple(payload["nested_fsm"])], payload["depth"]))
